@@ -115,6 +115,10 @@ func c04Profiles(tier Tier) []*explore.Profile {
 			b := uni.SeedBuilder(env, "mixed")
 			b.Must(uni.ESDTTransfer(uni.A0, uni.Z1, uni.F, 2)).DeliverAll()
 			b.Must(uni.NFTTransfer(uni.A0, uni.Z1, uni.S, 1, 1)).DeliverAll()
+			// the local contract s0 holds both tokens (received with attached calls): what it gives
+			// back after a failed call is a same-shard return flagged return-after-error
+			b.Must(uni.ESDTTransfer(uni.A0, uni.S0, uni.F, 1, []byte("f")))
+			b.Must(uni.NFTTransfer(uni.A0, uni.S0, uni.S, 1, 1, []byte("f")))
 			if n == "frozen" {
 				b.Must(uni.SysCall(uni.B0, vmcommon.BuiltInFunctionESDTFreeze, uni.F))
 				b.Must(uni.PauseCall(1, vmcommon.BuiltInFunctionESDTPause, uni.F))
@@ -136,6 +140,22 @@ func c04Profiles(tier Tier) []*explore.Profile {
 			// tokens sent to the system account's own address by a user of its shard
 			if held(w, uni.C1, tF) > 0 {
 				acts = append(acts, uni.ESDTTransfer(uni.C1, uni.Sys, uni.F, 1))
+			}
+			// same-shard returns by the contract s0, flagged return-after-error on both sides (the
+			// paying and the receiving account are both present): they may credit a frozen account,
+			// they must not end its freeze
+			for _, to := range [][]byte{uni.A0, uni.B0} {
+				var rets []world.Action
+				if held(w, uni.S0, tF) > 0 {
+					rets = append(rets, uni.ESDTTransfer(uni.S0, to, uni.F, 1), uni.Multi(uni.S0, to, []uni.Ent{{Tok: uni.F, Nonce: 0, Q: 1}}))
+				}
+				if held(w, uni.S0, tS1) > 0 {
+					rets = append(rets, uni.NFTTransfer(uni.S0, to, uni.S, 1, 1), uni.Multi(uni.S0, to, []uni.Ent{{Tok: uni.S, Nonce: 1, Q: 1}}))
+				}
+				for _, r := range rets {
+					r.ReturnAfterError = true
+					acts = append(acts, r)
+				}
 			}
 			// tokens handed out by the system contract itself (destination-side layout): the
 			// receiving account is subject to freeze and pause like any other
